@@ -7,6 +7,7 @@
 From Coq Require Import ZArith List.
 From Pnc Require Import Proofs_Access.
 From Pnc Require Import Proofs_RoundTrip.
+From Pnc Require Import Proofs_Exec.
 Set Printing Width 100.
 Set Printing Depth 100000.
 
@@ -197,6 +198,7 @@ Theorem C01_put_frame :
 Proof. exact @put_frame. Qed.
 Print Assumptions C01_put_frame.
 
+(* the same facts stated about the interpreter functions that are run against the library (Exec.v) *)
 Theorem C01_two_vars_disjoint :
   forall (g1 : Access.geom) (st1 cn1 sd1 : list Z) (bs1 : list Base.byte) 
            (g2 : Access.geom) (st2 cn2 sd2 : list Z) (bs2 : list Base.byte) 
@@ -225,3 +227,166 @@ Theorem C01_two_vars_disjoint :
          (forall x : Z, ~ var_region g1 x -> ~ var_region g2 x -> Disk.dk_get D x = Disk.dk_get d x).
 Proof. exact @two_vars_disjoint. Qed.
 Print Assumptions C01_two_vars_disjoint.
+
+Theorem C01_exec_put_rank_effect :
+  forall (w : Exec.world) (id : Z) (f : Exec.filest) (rank : Z) (coll : bool)
+           (a : Exec.access) (r : Exec.rreq),
+         (0 <= Exec.f_slot f < Base.Zlen (Exec.w_disks w))%Z ->
+         Exec.sanity f true true coll a = Gen_consts.NC_NOERR ->
+         Exec.check_request w f rank false a = (Gen_consts.NC_NOERR, Some (r :: nil)) ->
+         Exec.iomismatch a (r :: nil) = false ->
+         exists w' : Exec.world,
+           Exec.put_rank w id f rank coll a =
+           (w', Gen_consts.NC_NOERR, put_newrecs f a r, negb (Exec.nelems_of r =? 0)%Z) /\
+           Exec.disk_of w' f = put_disk f a r (Exec.disk_of w f) /\
+           (forall s : Z, s <> Exec.f_slot f -> Exec.get_disk w' s = Exec.get_disk w s) /\
+           same_but_disks w w'.
+Proof. exact @put_rank_effect. Qed.
+Print Assumptions C01_exec_put_rank_effect.
+
+Theorem C01_exec_put_rank_frame :
+  forall (w : Exec.world) (id : Z) (f : Exec.filest) (rank : Z) (coll : bool)
+           (a : Exec.access) (r : Exec.rreq),
+         put_accepted w f rank coll a r ->
+         let g := acc_geom f a in
+         let xt := acc_xt f a in
+         exists w' : Exec.world,
+           Exec.put_rank w id f rank coll a =
+           (w', Gen_consts.NC_NOERR, put_newrecs f a r, negb (Exec.nelems_of r =? 0)%Z) /\
+           same_but_disks w w' /\
+           (forall s : Z, s <> Exec.f_slot f -> Exec.get_disk w' s = Exec.get_disk w s) /\
+           Exec.disk_of w' f = put_disk f a r (Exec.disk_of w f) /\
+           Disk.dk_gather (Exec.disk_of w' f) (Access.g_xsz g) (req_offsets g r) =
+           Exec.put_stream a xt 0 r /\
+           (forall k : Z,
+            (0 <= k < Exec.nelems_of r)%Z ->
+            Disk.dk_read (Exec.disk_of w' f) (Access.elem_off g (Base.znth (rq_indices g r) k nil))
+              (Access.g_xsz g) = put_elem a xt k) /\
+           (forall x : Z,
+            (forall idx : list Z,
+             In idx (rq_indices g r) -> ~ in_elem (Access.g_xsz g) (Access.elem_off g idx) x) ->
+            Disk.dk_get (Exec.disk_of w' f) x = Disk.dk_get (Exec.disk_of w f) x) /\
+           (forall x : Z,
+            ~ var_region g x -> Disk.dk_get (Exec.disk_of w' f) x = Disk.dk_get (Exec.disk_of w f) x) /\
+           (forall x : Z,
+            (x < Access.g_begin g)%Z ->
+            Disk.dk_get (Exec.disk_of w' f) x = Disk.dk_get (Exec.disk_of w f) x) /\
+           (forall (g2 : Access.geom) (x : Z),
+            regions_disjoint g g2 ->
+            var_region g2 x -> Disk.dk_get (Exec.disk_of w' f) x = Disk.dk_get (Exec.disk_of w f) x) /\
+           (Disk.dk_size (Exec.disk_of w f) <= Disk.dk_size (Exec.disk_of w' f))%Z.
+Proof. exact @put_rank_frame. Qed.
+Print Assumptions C01_exec_put_rank_frame.
+
+Theorem C01_exec_get_after_put :
+  forall (w : Exec.world) (f : Exec.filest) (rank : Z) (coll : bool) 
+           (a : Exec.access) (r : Exec.rreq) (d : Disk.disk) (w2 : Exec.world) 
+           (f2 : Exec.filest) (rank2 : Z) (coll2 : bool) (a2 : Exec.access),
+         put_accepted w f rank coll a r ->
+         get_accepted w2 f2 rank2 coll2 a2 r ->
+         sees_put_at w2 f2 a2 f a r d r ->
+         Exec.get_rank_op w2 f2 rank2 coll2 a2 =
+         (Gen_consts.NC_NOERR,
+          Exec.THex
+            (Exec.guard_bytes ++
+             flat_map (fun k : Z => Data.mem_of_be (put_elem a (acc_xt f a) k))
+               (Base.zrange 0 (Exec.nelems_of r)) ++ Exec.guard_bytes) :: nil).
+Proof. exact @get_after_put. Qed.
+Print Assumptions C01_exec_get_after_put.
+
+Theorem C01_exec_get_after_put_other :
+  forall (w : Exec.world) (f : Exec.filest) (rank : Z) (coll : bool) 
+           (a : Exec.access) (r : Exec.rreq) (d : Disk.disk) (w2 : Exec.world) 
+           (f2 : Exec.filest) (rank2 : Z) (coll2 : bool) (a2 : Exec.access) 
+           (r' : Exec.rreq),
+         put_accepted w f rank coll a r ->
+         get_accepted w2 f2 rank2 coll2 a2 r' ->
+         sees_put_at w2 f2 a2 f a r d r' ->
+         let g := acc_geom f a in
+         let xt := acc_xt f a in
+         let elems := get_elems w2 f2 a2 r' in
+         Exec.get_rank_op w2 f2 rank2 coll2 a2 =
+         (if existsb (existsb Disk.is_undef) elems then Exec.RC_ANY else Gen_consts.NC_NOERR,
+          Exec.THex
+            (Exec.guard_bytes ++ flat_map (elem_image (Access.g_xsz g)) elems ++ Exec.guard_bytes)
+          :: nil) /\
+         Base.Zlen elems = Exec.nelems_of r' /\
+         (forall k' : Z,
+          (0 <= k' < Exec.nelems_of r')%Z ->
+          let idx' := Base.znth (rq_indices g r') k' nil in
+          (forall k : Z,
+           (0 <= k < Exec.nelems_of r)%Z ->
+           Base.znth (rq_indices g r) k nil = idx' -> Base.znth elems k' nil = put_elem a xt k) /\
+          (~ In idx' (rq_indices g r) ->
+           Base.znth elems k' nil = Disk.dk_read d (Access.elem_off g idx') (Access.g_xsz g))).
+Proof. exact @get_after_put_other. Qed.
+Print Assumptions C01_exec_get_after_put_other.
+
+Theorem C01_exec_indep_put_then_get :
+  forall (w : Exec.world) (id : Z) (f : Exec.filest) (rank : Z) (a : Exec.access)
+           (r : Exec.rreq) (w'' : Exec.world) (obs : list Exec.obs) (rank2 : Z) 
+           (coll2 : bool) (a2 : Exec.access),
+         put_accepted w f rank false a r ->
+         Base.znth (Exec.w_files w) id None = Some f ->
+         Exec.indep_put w id f rank a = (w'', obs) ->
+         let f' := Exec.indep_numrecs f rank (put_newrecs f a r) in
+         Exec.ac_var a2 = Exec.ac_var a ->
+         get_accepted w'' f' rank2 coll2 a2 r ->
+         Base.znth (Exec.w_files w'') id None = Some f' /\
+         Exec.get_rank_op w'' f' rank2 coll2 a2 =
+         (Gen_consts.NC_NOERR,
+          Exec.THex
+            (Exec.guard_bytes ++
+             flat_map (fun k : Z => Data.mem_of_be (put_elem a (acc_xt f a) k))
+               (Base.zrange 0 (Exec.nelems_of r)) ++ Exec.guard_bytes) :: nil).
+Proof. exact @indep_put_then_get. Qed.
+Print Assumptions C01_exec_indep_put_then_get.
+
+Theorem C01_exec_coll_put_effect :
+  forall (w : Exec.world) (id : Z) (f : Exec.filest) (ras : list (Z * Exec.access))
+           (rs : list Exec.rreq),
+         (0 <= Exec.f_slot f < Base.Zlen (Exec.w_disks w))%Z ->
+         Base.znth (Exec.w_files w) id None = Some f ->
+         Forall2 (rank_put_ok w f) ras rs ->
+         let D1 := coll_disk f (Base.zip (map snd ras) rs) (Exec.disk_of w f) in
+         exists (w2 : Exec.world) (f2 : Exec.filest),
+           Exec.coll_put w id f ras =
+           (w2,
+            map (fun ra : Z * Exec.access => (fst ra, Gen_consts.NC_NOERR, Exec.TSame :: nil)) ras) /\
+           Base.znth (Exec.w_files w2) id None = Some f2 /\
+           Exec.f_slot f2 = Exec.f_slot f /\
+           Exec.f_lay f2 = Exec.f_lay f /\
+           Header.h_dims (Exec.f_hdr f2) = Header.h_dims (Exec.f_hdr f) /\
+           Header.h_vars (Exec.f_hdr f2) = Header.h_vars (Exec.f_hdr f) /\
+           Header.h_format (Exec.f_hdr f2) = Header.h_format (Exec.f_hdr f) /\
+           (forall a : Exec.access, acc_geom f2 a = acc_geom f a /\ acc_xt f2 a = acc_xt f a) /\
+           (forall x : Z,
+            (x < 4)%Z \/ (12 <= x)%Z -> Disk.dk_get (Exec.disk_of w2 f2) x = Disk.dk_get D1 x) /\
+           (forall s : Z, s <> Exec.f_slot f -> Exec.get_disk w2 s = Exec.get_disk w s) /\
+           Exec.w_strict w2 = Exec.w_strict w /\ Exec.w_nprocs w2 = Exec.w_nprocs w.
+Proof. exact @coll_put_effect. Qed.
+Print Assumptions C01_exec_coll_put_effect.
+
+Theorem C01_exec_coll_put_same_then_get :
+  forall (w : Exec.world) (id : Z) (f : Exec.filest) (ranks : list Z) 
+           (a : Exec.access) (r : Exec.rreq),
+         ranks <> nil ->
+         (0 <= Exec.f_slot f < Base.Zlen (Exec.w_disks w))%Z ->
+         Base.znth (Exec.w_files w) id None = Some f ->
+         (forall k : Z, In k ranks -> put_accepted w f k true a r) ->
+         (12 <= Access.g_begin (acc_geom f a))%Z ->
+         exists (w2 : Exec.world) (f2 : Exec.filest),
+           Exec.coll_put w id f (map (fun k : Z => (k, a)) ranks) =
+           (w2, map (fun k : Z => (k, Gen_consts.NC_NOERR, Exec.TSame :: nil)) ranks) /\
+           Base.znth (Exec.w_files w2) id None = Some f2 /\
+           (forall (rank2 : Z) (coll2 : bool) (a2 : Exec.access),
+            Exec.ac_var a2 = Exec.ac_var a ->
+            get_accepted w2 f2 rank2 coll2 a2 r ->
+            Exec.get_rank_op w2 f2 rank2 coll2 a2 =
+            (Gen_consts.NC_NOERR,
+             Exec.THex
+               (Exec.guard_bytes ++
+                flat_map (fun k : Z => Data.mem_of_be (put_elem a (acc_xt f a) k))
+                  (Base.zrange 0 (Exec.nelems_of r)) ++ Exec.guard_bytes) :: nil)).
+Proof. exact @coll_put_same_then_get. Qed.
+Print Assumptions C01_exec_coll_put_same_then_get.
